@@ -87,6 +87,9 @@ Inductive route :=
 | RStatus                  (* GET  /status *)
 | RNotFound                (* no route for the path *)
 | RBadMethod               (* path known, method not *)
+| RDocSpec                 (* /swagger.json: go-openapi's Spec middleware serves the API description, any method, no token *)
+| RDocUI                   (* /docs: go-openapi's Redoc middleware serves an HTML page, any method, no token *)
+| ROptionsStar             (* OPTIONS * : answered by net/http itself (200, empty) *)
 | ROpaque.                 (* framing the model does not interpret (garbage request line, unsupported
                               protocol version, a body with an unexpected media type, an Accept header that
                               excludes JSON): refused by net/http or the framework before any handler *)
@@ -108,6 +111,7 @@ Inductive body :=
 | BUri (code : N)          (* {"uri": target/prefix/topic?code=...} *)
 | BIds (l : list N)        (* {"booking_ids": [...]}, compared sorted *)
 | BReports (l : list report)
+| BDoc                     (* the swagger document / the documentation page *)
 | BEmpty.                  (* 204 *)
 
 Inductive response :=
@@ -276,6 +280,8 @@ Section Guarded.
     | RNotFound => (s, Resp 404 BError)
     | RBadMethod => (s, Resp 405 BError)
     | ROpaque => (s, Resp 400 BError)
+    | RDocSpec | RDocUI => (s, Resp 200 BDoc)
+    | ROptionsStar => (s, Resp 200 BEmpty)
     | rt =>
         match validate_header (clock s) (cfg_host cfg) (cfg_secret cfg) (r_cred r) with
         | AuthNone => (s, Resp 401 BError)
@@ -297,6 +303,8 @@ Section Guarded.
             | RNotFound => (s, Resp 404 BError)
             | RBadMethod => (s, Resp 405 BError)
             | ROpaque => (s, Resp 400 BError)
+            | RDocSpec | RDocUI => (s, Resp 200 BDoc)
+            | ROptionsStar => (s, Resp 200 BEmpty)
             end
         end
     end.
